@@ -1942,7 +1942,12 @@ class t2data(object):
         if 'connection' in self.short_output:
             self.history_connection = self.short_output['connection'][:]
         if 'generator' in self.short_output:
-            self.history_generator = self.short_output['generator'][:]
+            # TOUGH2 generator history (GOFT) is specified by block:
+            self.history_generator = []
+            for gen in self.short_output['generator']:
+                blk = self.grid.block[gen.block] if gen.block in self.grid.block \
+                      else gen.block
+                if blk not in self.history_generator: self.history_generator.append(blk)
         self.short_output = {}
 
     def convert_history_to_short(self):
@@ -1952,13 +1957,20 @@ class t2data(object):
         """
         self.short_output = {}
         if self.history_block:
-            blks = [blk for blk in self.history_block if isinstance(blk, t2block)]
+            blks = [self.grid.block[blk] if blk in self.grid.block else blk
+                    for blk in self.history_block]
+            blks = [blk for blk in blks if isinstance(blk, t2block)]
             if blks: self.short_output['block'] = blks
         if self.history_connection:
-            cons = [con for con in self.history_connection if isinstance(con, t2connection)]
+            cons = [self.grid.connection[con] if con in self.grid.connection else con
+                    for con in self.history_connection]
+            cons = [con for con in cons if isinstance(con, t2connection)]
             if cons: self.short_output['connection'] = cons
         if self.history_generator:
-            gens = [gen for gen in self.history_generator if isinstance(gen, t2generator)]
+            # TOUGH2 generator history (GOFT) is specified by block:
+            blknames = [blk.name if isinstance(blk, t2block) else blk
+                        for blk in self.history_generator]
+            gens = [gen for gen in self.generatorlist if gen.block in blknames]
             if gens: self.short_output['generator'] = gens
         self.history_block = []
         self.history_connection = []
